@@ -12,6 +12,17 @@ KEEP = ("C02-", "head-delimitation", "head-incomplete", "head-progress", "ensure
         "trailer-untouched", "body-count", "coverage:", "raises-only", "inv:", "inv-", "variant")
 
 
+def classify(f):
+    """failure key of a deviating segmentation: a recorded CLASS of deviations, or the concrete stream and cut set"""
+    w, sp = f["whole"].get("requests"), f["split"].get("requests")
+    if f["differs_in"] == ["requests"] and w and sp and len(w) == len(sp) and w[:-1] == sp[:-1]:
+        a, b = dict(w[-1]), dict(sp[-1])
+        ea, eb = a.pop("error"), b.pop("error")
+        if a == b and ea and eb and {ea[0], eb[0]} == {"RequestEntityTooLarge", "BadRequest"} and "max_request_body_size" in (f.get("adj") or {}):
+            return "class:body-limit-vs-chunk-framing-error"
+    return "%s cuts=%s" % (f["stream_name"], f["cuts"])
+
+
 def main(argv=None):
     ck = Check("C02", argv, level="other")
     t = 30 if ck.tier == "quick" else 90
@@ -25,19 +36,25 @@ def main(argv=None):
     world.report(ck, res, select=lambda n: any(k in n for k in KEEP) or "/frame:" in n, also_used=applied, replayer=make_replayer(ck, MODS))
     world.report(ck, lem, select=lambda n: True)
 
-    payload = {"max_cuts": 1, "random_k": 40, "seed": 2} if ck.tier == "quick" else {"max_cuts": 2, "random_k": 400, "seed": 2}
+    payload = ({"max_cuts": 1, "random_k": 40, "seed": ck.seed, "random_streams": 40} if ck.tier == "quick"
+               else {"max_cuts": 2, "random_k": 400, "seed": ck.seed, "random_streams": 600})
     rep = ck.native("segment", payload, timeout=3000)
-    entry = {"label": "bounded", "what": "real HTTPChannel.received (real parser, receivers, buffers) on a fixed corpus of 21 streams: whole vs byte-at-a-time vs every "
+    entry = {"label": "bounded", "what": "real HTTPChannel.received (real parser, receivers, buffers) on a fixed corpus of 22 streams: whole vs byte-at-a-time vs every "
              "cut set of size <= %d vs %d random cut sets per stream; compared: queued requests up to the first closing one (fields, body, error), "
              "interim bytes sent, tasks started, carry-over of the unfinished request" % (payload["max_cuts"], payload["random_k"]),
-             "bound": "corpus of 21 streams (35-122 bytes); cut sets of size <= %d exhaustively" % payload["max_cuts"]}
+             "bound": "corpus of 22 hand-written streams (35-122 bytes) with all cut sets of size <= %d, plus %d generated streams (VERIF_SEED) with all single cuts and random cut sets" % (payload["max_cuts"], payload["random_streams"])}
     if "error" in rep:
         entry["status"] = "error: " + str(rep)[:300]
         ck.ob("channel.HTTPChannel.received/bounded:segmentation", "undecided", kind="bounded", clause="bounded stand-in did not run: %s" % str(rep)[:200])
     else:
         entry.update({"schedules_run": rep["total"], "streams": rep["streams"], "deviations": len(rep["failures"]), "status": "held" if not rep["failures"] else "deviation"})
-        for f in rep["failures"][:3]:
-            ck.fail("channel.HTTPChannel.received/bounded:segmentation", "%s cuts=%s" % (f["stream_name"], f["cuts"]),
+        seen = set()
+        for f in rep["failures"]:
+            key = classify(f)
+            if key in seen or (not key.startswith("class:") and len(seen) >= 4):
+                continue
+            seen.add(key)
+            ck.fail("channel.HTTPChannel.received/bounded:segmentation", key,
                     "bounded stand-in: the real channel yields different results for two segmentations of the same stream (%s): differs in %s" % (f["stream_name"], f["differs_in"]),
                     replay={"label": "bounded", "routine": "one", "payload": {"stream": f["stream"], "cuts": f["cuts"], "adj": f["adj"]}, "whole": f["whole"], "split": f["split"]},
                     reproduced=True)
